@@ -367,7 +367,7 @@ package tree
 //@   ensures rootLookupNoRows == (result != nil && isErr(result, sql.ErrNoRows))
 //@   ensures result == nil ==> cast(dst, *types.Root).Index == caller.index && rootHas(caller.t)[caller.index] && cast(dst, *types.Root).Hash == rootHash(caller.t)[caller.index]
 //@ func (t *Tree) GetRootByIndex (t, ctx, index)
-//@   props C08 C09 C12
+//@   props C01 C03 C08 C09 C12
 //@   requires t != nil
 //@   modifies rootLookupNoRows
 //@   nocalls
